@@ -37,7 +37,7 @@ type Expr struct {
 }
 
 var labels = []string{"a", "b", "c", "ab"}
-var pats = []string{"string", `=~"^a"`, `"a" | "b"`}
+var pats = []string{"string", `=~"^a"`, `"a" | "b"`, `!~"^a"`, `=~"b$"`}
 var leaves = []string{"int", "string", "1", "2", `"x"`, "_"}
 
 func matchPat(p, l string) bool {
@@ -46,6 +46,10 @@ func matchPat(p, l string) bool {
 		return true
 	case `=~"^a"`:
 		return strings.HasPrefix(l, "a")
+	case `!~"^a"`:
+		return !strings.HasPrefix(l, "a")
+	case `=~"b$"`:
+		return strings.HasSuffix(l, "b")
 	}
 	return l == "a" || l == "b"
 }
@@ -64,6 +68,10 @@ func (g *G) lit(depth int, allowRef int, embedDepth int) *Lit {
 	}
 	if rapid.IntRange(0, 3).Draw(g.t, "hp") == 0 {
 		l.Pats = append(l.Pats, Pat{rapid.SampledFrom(pats).Draw(g.t, "p"), g.val(depth, allowRef)})
+		if rapid.IntRange(0, 2).Draw(g.t, "hp2") == 0 {
+			// a second pattern: overlapping with, complementary to or equal to the first
+			l.Pats = append(l.Pats, Pat{rapid.SampledFrom(pats).Draw(g.t, "p2"), g.val(depth, allowRef)})
+		}
 	}
 	if rapid.IntRange(0, 5).Draw(g.t, "he") == 0 {
 		l.Ellipsis = true
@@ -380,13 +388,15 @@ func dataLit(t *rapid.T, depth int) *Lit {
 	return l
 }
 
-
 var excl = os.Getenv("VERIF_MODE") != "replay"
 
 type Case struct {
 	Defs   []*Lit
 	Schema *Expr
 	Data   *Lit
+	// Form: how schema and data meet. 0: r: s & d (both through references, schema first);
+	// 1: r: d & s; 2: r: s & {data}; 3: r: {data} & s; 4: r: <schema> & d; 5: r: d & <schema>
+	Form int
 }
 
 func source(c Case) string {
@@ -394,8 +404,72 @@ func source(c Case) string {
 	for i, l := range c.Defs {
 		fmt.Fprintf(&src, "#D%d: %s\n", i, l.String())
 	}
-	fmt.Fprintf(&src, "s: %s\nd: %s\nr: s & d\n", c.Schema.String(), c.Data.String())
+	fmt.Fprintf(&src, "s: %s\nd: %s\n", c.Schema.String(), c.Data.String())
+	switch c.Form {
+	case 1:
+		src.WriteString("r: d & s\n")
+	case 2:
+		fmt.Fprintf(&src, "r: s & %s\n", c.Data.String())
+	case 3:
+		fmt.Fprintf(&src, "r: %s & s\n", c.Data.String())
+	case 4:
+		fmt.Fprintf(&src, "r: %s & d\n", c.Schema.String())
+	case 5:
+		fmt.Fprintf(&src, "r: d & %s\n", c.Schema.String())
+	default:
+		src.WriteString("r: s & d\n")
+	}
 	return src.String()
+}
+
+// dataFor draws a data struct that follows the schema's own field structure downwards (so that
+// deep closedness is actually exercised) and then adds or omits labels on the way.
+func dataFor(t *rapid.T, e *Expr, defs []*Lit, depth int) *Lit {
+	var l *Lit
+	switch {
+	case e == nil:
+	case e.Kind == "lit" || e.Kind == "close":
+		l = e.Lit
+	case e.Kind == "ref" && e.Ref < len(defs):
+		l = defs[e.Ref]
+	case e.Kind == "and":
+		return dataFor(t, e.Args[rapid.IntRange(0, 1).Draw(t, "side")], defs, depth)
+	}
+	d := &Lit{}
+	seen := map[string]bool{}
+	add := func(lb string, v *Expr) {
+		if !seen[lb] {
+			seen[lb] = true
+			d.Fields = append(d.Fields, Field{lb, 0, v})
+		}
+	}
+	atom := func() *Expr {
+		return &Expr{Kind: "leaf", Leaf: rapid.SampledFrom([]string{"1", "2", `"x"`}).Draw(t, "dv")}
+	}
+	if l != nil {
+		for _, f := range l.Fields {
+			if f.Kind == 1 && rapid.Bool().Draw(t, "omit") {
+				continue
+			}
+			if f.Val.Kind == "leaf" || depth <= 0 {
+				add(f.Label, atom())
+			} else {
+				add(f.Label, &Expr{Kind: "lit", Lit: dataFor(t, f.Val, defs, depth-1)})
+			}
+		}
+		for _, p := range l.Pats {
+			lb := rapid.SampledFrom(labels).Draw(t, "pl")
+			if p.Val.Kind == "leaf" || depth <= 0 {
+				add(lb, atom())
+			} else {
+				add(lb, &Expr{Kind: "lit", Lit: dataFor(t, p.Val, defs, depth-1)})
+			}
+		}
+	}
+	if rapid.IntRange(0, 1).Draw(t, "extra") == 0 {
+		add(rapid.SampledFrom(labels).Draw(t, "xl"), atom())
+	}
+	return d
 }
 
 func hasClosing(e *Expr) bool {
@@ -481,7 +555,12 @@ func gen(t *rapid.T) Case {
 		c.Defs = append(c.Defs, g.lit(2, i, 1))
 	}
 	c.Schema = g.structExpr(2, nd, 1, true)
-	c.Data = dataLit(t, 2)
+	if rapid.Bool().Draw(t, "schemaAware") {
+		c.Data = dataFor(t, c.Schema, c.Defs, 2)
+	} else {
+		c.Data = dataLit(t, 2)
+	}
+	c.Form = rapid.SampledFrom([]int{0, 0, 1, 2, 3, 4, 5}).Draw(t, "form")
 	return c
 }
 
@@ -566,6 +645,31 @@ func excluded(c Case) string {
 	walkExpr(c.Schema, where{}, visit)
 	for _, d := range c.Defs {
 		walkLit(d, where{inDef: true}, visit)
+	}
+	if bad == "" && c.Schema.Kind == "and" {
+		// F82: a literal that embeds a definition closes the nested structs that other conjuncts
+		// contribute ({#D0} & {b: {a: int}} rejects b.b although #D0 is {...} and #D0 & {b: {a: int}}
+		// accepts it). Region: a conjunction one of whose literals embeds a definition, and data with
+		// a nested struct.
+		embedsRef := false
+		walkExpr(c.Schema, where{}, func(e *Expr, w where) {
+			if (e.Kind == "lit" || e.Kind == "close") && e.Lit != nil {
+				for _, x := range e.Lit.Embeds {
+					if x.Kind == "ref" {
+						embedsRef = true
+					}
+				}
+			}
+		})
+		nested := false
+		for _, f := range c.Data.Fields {
+			if f.Val.Kind != "leaf" {
+				nested = true
+			}
+		}
+		if embedsRef && nested {
+			bad = "NoNestedDataBelowConjunctionWithEmbeddedDefinition(F82)"
+		}
 	}
 	return bad
 }
